@@ -178,6 +178,5 @@ func cmdList(args []string) {
 	}
 }
 
-func cmdCheck(args []string)    { fatalf("check: not built yet") }
 func cmdSelftest(args []string) { fatalf("selftest: not built yet") }
 func cmdReplay(args []string)   { fatalf("replay: not built yet") }
